@@ -168,7 +168,8 @@ Print Assumptions C09_sni_total.
     writes and PopCryptoFrame calls with any budgets: no panic; every popped frame lies inside
     the written stream and carries its bytes at its offset (overlapping cuts included); and
     when HasData reports false, either nothing was popped yet and the stream still waits for
-    cuts[0] (scramble on), or every byte written so far has been sent. *)
+    cuts[0] (scramble on; by C09_scrambler_complete_hello_offered that ends with the write that
+    completes the ClientHello), or every byte written so far has been sent. *)
 Theorem C09_scrambler_exact : forall sc ops,
   Forall op_ok ops ->
   match run (init sc) [] [] ops with
@@ -197,25 +198,81 @@ Theorem C09_default_splitter : forall ops,
 Proof. exact default_splitter_exact. Qed.
 Print Assumptions C09_default_splitter.
 
-(** REFUTED for the scrambler: "once the whole ClientHello is queued it is sent".
-    A well-formed ClientHello with an ECH extension and no SNI is accepted by Write, but
-    HasData is false and stays false whatever is written later: it is never sent
-    (known finding scrambler/never-sent/ech-without-sni, reproduced on the implementation). *)
-Theorem C09_scrambler_ech_without_sni_refuted :
-  let r := find_sni_ech ch_ech_no_sni in
-  let s := fst (write (init true) ch_ech_no_sni) in
-  sCls r = 0 /\ sPos r = -1 /\ ePos r = 47 /\
-  snd (write (init true) ch_ech_no_sni) = 0 /\ 0 < zlen (buf s) /\ has_data s = false /\
-  forall p, p <> [] -> bytes_ok p -> has_data (fst (write s p)) = false.
-Proof. exact ech_without_sni_never_sent. Qed.
-Print Assumptions C09_scrambler_ech_without_sni_refuted.
+(** Once the write that completes a ClientHello has happened on a stream still waiting for it
+    (scramble on, nothing popped, no cut computed — the state every sequence of incomplete
+    writes leaves), Write reports no error and HasData is true, whatever extensions the
+    ClientHello has.  This was REFUTED before the repair fixes/C09-scrambler-ech-without-sni
+    (ECH without SNI: HasData stayed false for ever). *)
+Theorem C09_scrambler_complete_hello_offered : forall W e a1 b1 p,
+  bytes_ok (W ++ p) -> sCls (find_sni_ech (W ++ p)) = 0 ->
+  snd (write (mkS W 0 true e Inv a1 Inv b1) p) = 0 /\
+  has_data (fst (write (mkS W 0 true e Inv a1 Inv b1) p)) = true.
+Proof. exact complete_hello_offered. Qed.
+Print Assumptions C09_scrambler_complete_hello_offered.
 
-(** REFUTED for the scrambler: "the stream always drains". With a host_name of length 0 the
-    stream wedges after the ClientHello went out: HasData true, PopCryptoFrame nil for every
-    budget, also after further writes (known finding scrambler/stuck/empty-host-name). *)
-Theorem C09_scrambler_empty_host_name_refuted :
-  let s0 := fst (write (init true) ch_empty_host) in
-  exists s, pop s0 (2 ^ 62 - 1) = Ok (s, Some (0, ch_empty_host)) /\
-    forall p m, let s' := fst (write s p) in has_data s' = true /\ pop s' m = Ok (s', None).
-Proof. exact empty_host_name_stuck. Qed.
-Print Assumptions C09_scrambler_empty_host_name_refuted.
+(** No wedge: in every state reachable by writes and pops ([sinv] is the invariant of
+    C09_scrambler_exact's proof, established by [init] and preserved by every op), while HasData
+    is true a PopCryptoFrame with a budget of at least 11 bytes either yields a frame or leaves
+    a stream whose HasData is false.  This was REFUTED before the repair
+    fixes/C09-scrambler-empty-cut (an empty cut made PopCryptoFrame return nil for ever). *)
+Theorem C09_scrambler_no_wedge : forall W fs s m,
+  sinv W fs s -> has_data s = true -> 11 <= m ->
+  match pop s m with
+  | Ok (s', Some _) => True
+  | Ok (s', None) => has_data s' = false
+  | _ => False
+  end.
+Proof. exact no_wedge. Qed.
+Print Assumptions C09_scrambler_no_wedge.
+
+(** [sinv] holds initially and after every op sequence (so the theorem above applies to every
+    reachable state). *)
+Theorem C09_scrambler_invariant_reachable : forall sc ops,
+  Forall op_ok ops ->
+  match run (init sc) [] [] ops with
+  | Ok (s, W, fs) => sinv W fs s
+  | _ => False
+  end.
+Proof. exact (fun sc ops H => run_inv ops (init sc) [] [] (init_inv sc) (Forall_nil _) H). Qed.
+Print Assumptions C09_scrambler_invariant_reachable.
+
+(** Regression: the former counterexample (ClientHello with ECH and without SNI) is now offered
+    and sent completely: the bytes before the ECH cut, then the deferred cut. *)
+Example C09_scrambler_ech_without_sni_regression :
+  exists s W fs, run (init true) [] [] [SWrite ch_ech_no_sni; SPop 1200; SPop 1200] = Ok (s, W, fs)
+    /\ has_data (fst (write (init true) ch_ech_no_sni)) = true
+    /\ has_data s = false /\ fs = [(0, firstn 48 ch_ech_no_sni); (48, skipn 48 ch_ech_no_sni)].
+Proof. exact ech_without_sni_now_sent. Qed.
+Print Assumptions C09_scrambler_ech_without_sni_regression.
+
+(** Regression: the former counterexample (host_name of length 0) now drains, and what is
+    written afterwards is sent at its offset. *)
+Example C09_scrambler_empty_host_name_regression :
+  exists s W fs, run (init true) [] [] [SWrite ch_empty_host; SPop 1200; SPop 1200; SWrite [9; 9]; SPop 1200] = Ok (s, W, fs)
+    /\ has_data s = false /\ fs = [(0, ch_empty_host); (56, [9; 9])].
+Proof. exact empty_host_name_now_drains. Qed.
+Print Assumptions C09_scrambler_empty_host_name_regression.
+
+(** validateInitialFlight on ARBITRARY payloads — whatever a custom QUICFlightFrameBuilder returns
+    (bytes, each payload shorter than 2^48): it never panics (result class -1), and when it
+    accepts, every payload is a well-formed sequence of PADDING, PING and complete CRYPTO frames
+    with one-byte frame types (the strict reader [strict_frames] parses it) whose CRYPTO frames
+    cover every byte of the stream with data really present in the payload.  Both parts failed
+    before the repair fixes/C09-validate-initial-flight-strict-frames. *)
+Theorem C09_validate_sound : forall ps budgets n,
+  Forall (fun p => bytes_ok p /\ zlen p <= 2 ^ 48) ps ->
+  validate ps budgets n <> -1 /\
+  (validate ps budgets n = 0 ->
+   exists wss, Forall2 (fun p ws => strict_frames (S (length p)) p = Some ws) ps wss /\
+     forall j, 0 <= j < n -> exists ws o d, In ws wss /\ In (o, d) (wcryptos ws) /\ o <= j < o + zlen d).
+Proof. exact validate_sound. Qed.
+Print Assumptions C09_validate_sound.
+
+(** Regression: the former counterexamples (truncated final CRYPTO frame, frame type 6 as a
+    two-byte varint, CRYPTO frame announcing 2^61 bytes) are rejected as "does not parse". *)
+Example C09_validate_rejects_former_witnesses :
+  validate [[6; 0; 20; 65; 66; 67; 68; 69; 70; 71; 72]] [0] 20 = 3 /\
+  validate [[64; 6; 0; 20] ++ repeat 65 20] [0] 20 = 3 /\
+  validate [[6; 0; 224; 0; 0; 0; 0; 0; 0; 0]] [0] 20 = 3.
+Proof. exact validate_rejects_former_witnesses. Qed.
+Print Assumptions C09_validate_rejects_former_witnesses.
